@@ -206,6 +206,8 @@ struct Traits {
     depth: u32,
     nodes: u32,
     huge_real: bool,
+    /// an array holds two integers that could be an object and a generation number, followed by the name /R
+    int_int_name_r: bool,
 }
 
 fn scan(t: &T, depth: u32, tr: &mut Traits) {
@@ -242,7 +244,22 @@ fn scan(t: &T, depth: u32, tr: &mut Traits) {
                 tr.huge_real = true;
             }
         }
-        T::Arr(a) => a.iter().for_each(|x| scan(x, depth + 1, tr)),
+        T::Arr(a) => {
+            // a number that is written as an integer token in the given range (reals without fraction print as integers)
+            let int_in = |t: &T, hi: f64| match t {
+                T::Int(i) => (0.0..=hi).contains(&(*i as f64)),
+                T::Real(r) => {
+                    // the writer keeps six decimals: 1e-7 is written "0"
+                    let q = (r.abs() * 1e6).round() / 1e6;
+                    q.fract() == 0.0 && q <= hi
+                }
+                _ => false,
+            };
+            if a.windows(3).any(|w| int_in(&w[0], 9_999_999.0) && int_in(&w[1], 65_535.0) && matches!(&w[2], T::Name(r) if r == "R")) {
+                tr.int_int_name_r = true;
+            }
+            a.iter().for_each(|x| scan(x, depth + 1, tr))
+        }
         T::Dict(d) => d.iter().for_each(|(k, v)| {
             name(k, tr);
             scan(v, depth + 1, tr)
@@ -255,6 +272,9 @@ fn classify(diff: &Diff, tr: &Traits, parse_failed: bool) -> (&'static str, Stri
     // attribute a mismatch to its most specific cause visible in the case
     if parse_failed && tr.huge_real && diff.detail.contains("Invalid integer") {
         return ("C09/real-roundtrip", "integral-real>=2^63-written-without-decimal-point".into());
+    }
+    if tr.int_int_name_r && (diff.kind == "structure" || diff.kind == "int") {
+        return ("C09/structure-roundtrip", "array-int-int-name-R".into());
     }
     if diff.kind == "name" || parse_failed || diff.kind == "structure" {
         if let Some(h) = tr.hostile_name {
@@ -401,6 +421,8 @@ pub fn check(c: &Case) -> Outcome {
 fn name_strategy() -> impl Strategy<Value = String> {
     prop_oneof![
         10 => "[A-Za-z][A-Za-z0-9_.-]{0,10}",
+        // names spelled like keywords and operators of the object syntax
+        1 => prop::sample::select(vec!["R", "obj", "endobj", "stream", "endstream", "true", "false", "null", "xref", "trailer", "startxref", "n", "f"]).prop_map(|s| s.to_string()),
         2 => "[A-Za-z0-9!$&*+:;=?@^_`|~,'\"-]{1,8}",
         2 => "[a-zA-Zé中ß\u{1F600}Ωж]{1,6}",
         1 => "[A-Za-z #/()<>\\[\\]{}%\t\n]{1,6}",
